@@ -6,6 +6,9 @@
   modelled by `Option`: `none` = the Rust code panics (slice out of range, unsigned underflow,
   `unwrap` on `None`).  The parser's control flow and the wrapper's search are not modelled; for them
   the check is a monitor (watchdog, `catch_unwind`, deterministic work counters), named as such.
+
+  The wrapper stage of the closed model (`wrapStageFull`, search included) is proved never to abort on well-formed
+  lines (`LinesOk`: token indices in range, parents are earlier lines): `wrapper_stage_never_aborts` below.
 -/
 import PasfmtModel.Proofs.MachineCover
 import PasfmtModel.Proofs.Tree
@@ -13,6 +16,7 @@ import PasfmtModel.Proofs.LexShape
 import PasfmtModel.Model.Cursor
 import PasfmtModel.Proofs.LexTotal
 import PasfmtModel.Proofs.LexBoundaries
+import PasfmtModel.Proofs.StageTotalSearch
 
 namespace Pasfmt.C04
 
@@ -67,5 +71,59 @@ theorem machine_refs_stay_valid (kinds : List RawKind) (pass : List Nat) (s s' :
     (hv : RefsValid s) (hstep : s.step kinds pass op = some s') : RefsValid s' :=
   (step_cover kinds pass s s' op (List.range s.passIdx) hv
     (by intro j tok hj _; right; exact List.mem_range.2 hj) hstep).1
+
+/-! ### the wrapper stage (closed model) never aborts -/
+
+/-- the walk from a line to its top-level ancestor (`while let Some(parent) = line.get_parent()`) ends without an
+    index out of range and without running forever, when every parent is an earlier line -/
+theorem top_parent_walk_ends (lines : List Line) (n : Nat) (h : LinesOk lines n) (i : Nat) (hi : i < lines.length) :
+    topParent lines (lines.length + 1) i ≠ none := topParent_total lines n h i hi
+
+/-- the string pass over one line never meets a token index without formatting data when all the line's token
+    indices are in range; it keeps the number of tokens -/
+theorem mls_line_never_aborts (S : Settings) (toks : List Nat) (ft : FT) (h : ∀ t ∈ toks, t < ft.length) :
+    ∃ ft1 ch, mlsLine S toks ft = some (ft1, ch) ∧ ft1.length = ft.length := mlsLine_total S toks ft h
+
+/-- the first string pass (with the walks to the top-level parents) answers on well-formed lines -/
+theorem mls_pass1_never_aborts (S : Settings) (lines : List Line) (ft : FT) (h : LinesOk lines ft.length) :
+    ∃ ft1 out, mlsPass1 S lines lines.zipIdx ft [] = some (ft1, out) ∧ ft1.length = ft.length :=
+  mlsPass1_total S lines ft.length h lines.zipIdx ft [] (fun _ hx => hx) rfl
+
+/-- the second string pass answers on well-formed lines -/
+theorem mls_pass2_never_aborts (S : Settings) (lines : List Line) (ft : FT) (h : LinesOk lines ft.length) :
+    ∃ ft1, mlsPass2 S lines ft = some ft1 ∧ ft1.length = ft.length :=
+  mlsPass2_total S ft.length lines ft h.all_tokens rfl
+
+/-- applying a solution whose shape fits the lines (`SolFits`: the line exists, at most as many decisions as the line
+    has tokens, token indices in range, child solutions fit their lines) never panics: no decision without a token,
+    no missing child line, no token without formatting data; the number of tokens is kept -/
+theorem apply_solution_never_aborts (lines : List Line) (ft : FT) (s : Sol) (i : Nat)
+    (h : SolFits lines ft.length s i) : ∃ ft1, applySol lines ft s i = some ft1 ∧ ft1.length = ft.length :=
+  applySol_total lines ft.length ft s i h rfl
+
+/-- on well-formed lines, the solution the search returns for a line fits the lines: the line exists, the solution has
+    at most as many decisions as the line has tokens, and every child solution, at every depth, is the solution of an
+    existing line and fits it -/
+theorem search_returns_fitting_solutions (cfg : Config) (lines : List Line) (ft : FT) (hL : LinesOk lines ft.length)
+    (i : Nat) (s : Sol) (st' : SearchState) (h : searchSolve (searchInit cfg lines ft) ft i = (some s, st')) :
+    SolFits lines ft.length s i := searchSolve_fits cfg lines ft hL i s st' h
+
+/-- the wrapper stage answers whenever every solution the search returns fits the lines (the part that does not look
+    inside the search; `P` is any invariant of the search state) -/
+theorem wrapper_stage_never_aborts_of_fits (cfg : Config) (lines : List Line) (ft : FT) (P : SearchState → Prop)
+    (hL : LinesOk lines ft.length) (h0 : P (searchInit cfg lines ft)) (hS : SearchFits lines ft.length P) :
+    ∃ r, wrapStageFull cfg lines ft = some r := wrapStageFull_total_of_fits cfg lines ft P hL h0 hS
+
+/-- **The wrapper stage never aborts** (closed model, search included): for every configuration, on lines that are
+    well formed for the tokens (every token index of every line is a token with formatting data; the parent of a
+    line is an earlier line) the stage returns a result.  `none` stands for the panics of the real stage: a decision
+    without a token, a child line that does not exist, a token index without formatting data (applying a solution and
+    the two string passes), a parent index out of range or a parent cycle (the walk to the top-level parent). -/
+theorem wrapper_stage_never_aborts (cfg : Config) (lines : List Line) (ft : FT) (hL : LinesOk lines ft.length) :
+    ∃ r, wrapStageFull cfg lines ft = some r := wrapStageFull_total cfg lines ft hL
+
+/-- the well-formedness of the lines is a check that can be run (`decide`): here two lines over three tokens, the
+    second hanging off token 1 of the first -/
+example : LinesOk [⟨none, 0, [0, 1], .lEof⟩, ⟨some ⟨0, 1⟩, 1, [2], .lEof⟩] 3 := by decide
 
 end Pasfmt.C04
